@@ -202,7 +202,7 @@ report(const char *clause, const char *shape, const char *fmt, ...)
 }
 
 /* ---------------- events ---------------- */
-enum {E_ADD, E_CANCEL, E_CHKPT, E_LIST, E_SHUTDOWN};
+enum {E_ADD, E_CANCEL, E_CHKPT, E_LIST, E_SHUTDOWN, E_CANCEL2, E_ADD2};
 struct ev_s {
 	int kind, user, uid, tpl;
 };
@@ -216,6 +216,8 @@ evname(char *b, size_t z, const struct ev_s *e)
 	case E_CHKPT: snprintf(b, z, "CHKPT"); break;
 	case E_LIST: snprintf(b, z, "LIST(%u)", users[e->user]); break;
 	case E_SHUTDOWN: snprintf(b, z, "SHUTDOWN"); break;
+	case E_CANCEL2: snprintf(b, z, "CANCEL(%u,%s+nonexistent)", users[e->user], uids[e->uid]); break;
+	case E_ADD2: snprintf(b, z, "ADD(%u,%s,%s)+ADD(of a foreign-owned field)", users[e->user], uids[e->uid], tpls[e->tpl].name); break;
 	}
 	return b;
 }
@@ -227,7 +229,12 @@ enabled(struct ev_s *ev)
 	for (int u = 0; u < NU; u++) {
 		for (int k = 0; k < NUID; k++) {
 			for (int t = 0; t < NTPL; t++) ev[n++] = (struct ev_s){E_ADD, u, k, t};
-			if (M.cur[k].present && M.cur[k].owner == users[u]) ev[n++] = (struct ev_s){E_CANCEL, u, k, 0};
+			if (M.cur[k].present && M.cur[k].owner == users[u]) {
+				ev[n++] = (struct ev_s){E_CANCEL, u, k, 0};
+				/* one request, two instructions: the first succeeds, the last is refused */
+				ev[n++] = (struct ev_s){E_CANCEL2, u, k, 0};
+			}
+			if (k == 0) ev[n++] = (struct ev_s){E_ADD2, u, k, 0};
 		}
 	}
 	return n;
@@ -426,7 +433,7 @@ model_ckpt_users(const struct ev_s *e, int *who)
 static const char*
 evk(const struct ev_s *e)
 {
-	static const char *const k[] = {"ADD", "CANCEL", "CHKPT", "LIST", "SHUTDOWN"};
+	static const char *const k[] = {"ADD", "CANCEL", "CHKPT", "LIST", "SHUTDOWN", "CANCEL2", "ADD2"};
 	return k[e->kind];
 }
 
@@ -434,7 +441,7 @@ evk(const struct ev_s *e)
 static void
 checkpoint_event(const struct ev_s *e)
 {
-	char name[64], shape[120], why[200];
+	char name[96], shape[120], why[200];
 	int who[NU];
 	long nsteps = 0;
 	pid_t c;
@@ -562,7 +569,7 @@ checkpoint_event(const struct ev_s *e)
 static void
 apply_cmd(const struct ev_s *e)
 {
-	char name[64], req[8192], shape[64];
+	char name[96], req[8192], shape[64];
 	struct hx_reply_s rp;
 	const unsigned u = users[e->user];
 
@@ -580,6 +587,33 @@ apply_cmd(const struct ev_s *e)
 		if (rp.nsucc != ok || rp.nfail != !ok) {
 			snprintf(shape, sizeof(shape), "ADD/%s", rp.nsucc ? "accepted" : "refused");
 			report("reply", shape, "%s: %d success / %d failure replies, expected %s", name, rp.nsucc, rp.nfail, ok ? "success" : "failure");
+		}
+	} else if (e->kind == E_CANCEL2) {
+		size_t o = (size_t)snprintf(req, sizeof(req), "BEGIN:VCALENDAR\nVERSION:2.0\nMETHOD:CANCEL\nBEGIN:VEVENT\nUID:%s\nEND:VEVENT\nBEGIN:VEVENT\nUID:no-such-task\nEND:VEVENT\nEND:VCALENDAR\n", uids[e->uid]);
+		int ok = M.cur[e->uid].present && M.cur[e->uid].owner == u;
+		hx_request(&rp, u, req, o);
+		if (ok) {
+			M.cur[e->uid].present = 0;
+			M.dirty[e->user] = M.everdirty[e->user] = 1;
+		}
+		if (rp.nsucc != ok || rp.nfail != 2 - ok) {
+			snprintf(shape, sizeof(shape), "CANCEL2/%d-%d", rp.nsucc, rp.nfail);
+			report("reply", shape, "%s: %d success / %d failure replies, expected %d / %d", name, rp.nsucc, rp.nfail, ok, 2 - ok);
+		}
+	} else if (e->kind == E_ADD2) {
+		/* a good task followed, in the same request, by one that names another owner */
+		size_t o = mk_add(req, sizeof(req), uids[e->uid], &tpls[e->tpl]);
+		int ok = !M.cur[e->uid].present || M.cur[e->uid].owner == u;
+		o -= strlen("END:VCALENDAR\n");
+		o += (size_t)snprintf(req + o, sizeof(req) - o, "BEGIN:VEVENT\nUID:foreign\nSUMMARY:x\nDTSTART:20300101T000050Z\nX-ECHS-OWNER:%u\nEND:VEVENT\nEND:VCALENDAR\n", u == 1000 ? 1001 : 1000);
+		hx_request(&rp, u, req, o);
+		if (ok) {
+			M.cur[e->uid] = (struct mt_s){1, u, e->tpl};
+			M.dirty[e->user] = M.everdirty[e->user] = 1;
+		}
+		if (rp.nsucc != ok || rp.nfail != 2 - ok) {
+			snprintf(shape, sizeof(shape), "ADD2/%d-%d", rp.nsucc, rp.nfail);
+			report("reply", shape, "%s: %d success / %d failure replies, expected %d / %d", name, rp.nsucc, rp.nfail, ok, 2 - ok);
 		}
 	} else {
 		size_t o = (size_t)snprintf(req, sizeof(req), "BEGIN:VCALENDAR\nVERSION:2.0\nMETHOD:CANCEL\nBEGIN:VEVENT\nUID:%s\nEND:VEVENT\nEND:VCALENDAR\n", uids[e->uid]);
@@ -601,7 +635,7 @@ apply_cmd(const struct ev_s *e)
 static void
 apply_ckpt_quiet(const struct ev_s *e)
 {
-	char name[64];
+	char name[96];
 	int who[NU];
 	struct hx_reply_s rp;
 	evname(name, sizeof(name), e);
@@ -684,7 +718,7 @@ in_child(void (*fn)(const struct ev_s*), const struct ev_s *e, int depth, int re
 	}
 	while (waitpid(c, &st, 0) < 0 && errno == EINTR);
 	if (!(WIFEXITED(st) && WEXITSTATUS(st) == 0)) {
-		char name[64];
+		char name[96];
 		evname(name, sizeof(name), e);
 		vd_desc("%s %s", hist, name);
 		vd_viol("crash/command", "daemon image died handling %s (status %#x)", name, st);
@@ -852,7 +886,7 @@ enumerate(void)
 	/* one case per first command */
 	n1 = enabled(e1);
 	for (int i = 0; i <= n1; i++) {
-		char name[64] = "(no command)";
+		char name[96] = "(no command)";
 		if (!vd_next()) continue;
 		if (i < n1) evname(name, sizeof(name), &e1[i]);
 		vd_desc("%s ...", name);
